@@ -42,7 +42,10 @@ admin_api { listen "127.0.0.1:12019" }
 // signed builds a request carrying nonce and the signed timestamp ts; valid selects a correct signature.
 // String to sign per docs/ingress (timestamp, method, cleaned path, hex sha256 of the body, newline separated).
 func signed(nonce string, ts int64, valid bool) *http.Request {
-	body := "payload"
+	return signedBody(nonce, ts, valid, "payload")
+}
+
+func signedBody(nonce string, ts int64, valid bool, body string) *http.Request {
 	sum := sha256.Sum256([]byte(body))
 	msg := fmt.Sprintf("%d\nPOST\n/h\n%s", ts, hex.EncodeToString(sum[:]))
 	key := []byte("k")
